@@ -26,7 +26,6 @@ Type *array_of(Type *base, int len) {   // type.c contract: array type of `len` 
   return &T_arr;
 }
 char *format(char *fmt, ...) { return 0; }
-int display_width(char *p, int len) { return len; }
 void *hashmap_get2(HashMap *map, char *key, int keylen) { return 0; }
 void hashmap_put(HashMap *map, char *key, void *val) {}
 // unicode.c is linked real (extra_src): decode_utf8, encode_utf8, is_ident1/2
